@@ -1,6 +1,8 @@
 import Fdo.Cbor.Proofs
 import Fdo.Cbor.Canon
 import Fdo.Cbor.CanonProofs
+import Fdo.Cbor.TypedProofs
+import Fdo.Gen.Schemas
 /-
 C11 — CBOR encoding is canonical and decode/encode are mutual inverses.
 Property theorems only; helper lemmas live in Fdo/Cbor/Proofs.lean.
@@ -126,5 +128,49 @@ by the strict decoder although the lenient one reads it. -/
 example : decodeStrict 10 [0xa2, 0x18, 0x18, 0x03, 0x01, 0x02] = none
     ∧ decodeStrict 10 [0x18, 0x01] = none
     ∧ (decode1 [0xa2, 0x18, 0x18, 0x03, 0x01, 0x02]).isSome = true := by decide +kernel
+
+/-! ### the typed codec (Go values of declared types, FDO message structures)
+
+`decodeS`/`encodeS` model `Decoder.Decode(&T)` / `Marshal(T)` for the Go type described by a `Schema`
+(regenerated from the code: `Fdo.Gen.Schemas`). For the fragment decided by `Schema.inFragment`
+decode ∘ encode = id is proved below for every conforming value; the remaining shapes (`omitempty`
+fields, the embedded COSE header, `any`, maps, certificates, timestamps, tag-number checking wrappers)
+are tied to the implementation by the correspondence run only. -/
+
+/-- **decode(encode(v)) = v for typed values**, with any following bytes left in the stream: for every
+type in the fragment, every value the type can hold within the library's limits (`conf`), any nesting
+budget `d` the value fits in, and any fuel the model is given beyond the stated minimum. -/
+theorem typed_decode_encode (ok : CertOracle) (g : Nat) (s : Schema) (v : Val) (b r : Bytes) (d f : Nat)
+    (hs : s.inFragment = true) (henc : encodeS g s v = some b) (hconf : conf g d s v = true)
+    (hlen : b.length < 18446744073709551616) (hf : 2 * b.length + 1 + s.ptrDepth ≤ f) :
+    decodeS ok f d s (b ++ r) = some (v, r) :=
+  decodeS_encodeS ok g s v b r d f hs henc hconf hlen hf
+
+/-- `cbor.Unmarshal(cbor.Marshal(v), &w)` gives `w = v` on the fragment. -/
+theorem typed_unmarshal_marshal (ok : CertOracle) (s : Schema) (v : Val) (b : Bytes)
+    (hs : s.inFragment = true) (hp : s.ptrDepth ≤ 63) (henc : marshalS s v = some b)
+    (hconf : conf 10000 maxDepth s v = true) (hlen : b.length < 18446744073709551616) :
+    unmarshalS ok s b = some v :=
+  unmarshalS_marshalS ok s v b hs hp henc hconf hlen
+
+/-- Which of the regenerated wire and storage types the theorem covers today (a type that changes shape
+in the code and leaves — or enters — the fragment changes this list and is flagged by the build). -/
+theorem wire_types_in_fragment :
+    (Fdo.Gen.Schemas.names.filter fun n =>
+      match Fdo.Gen.Schemas.byName n with
+      | some s => s.inFragment && decide (s.ptrDepth ≤ 63)
+      | none => false) =
+    ["RawBytes", "int64", "uint8", "uint16", "int8", "int16", "int32", "int", "uint32", "uint64", "bytes", "string",
+     "fixed16", "Bstr[int]", "ByteWrap[bytes]", "ByteWrap[Hash]", "Tag[Raw]", "Hash", "PublicKey", "RvTO2Addr", "To1d",
+     "ErrorMessage", "TO2.HelloDevice", "TO2.DeviceServiceInfoReady", "TO2.OwnerServiceInfoReady", "TO2.DeviceServiceInfo",
+     "TO2.OwnerServiceInfo", "TO2.Done", "TO2.Done2", "TO0.HelloAck", "TO0.AcceptOwner", "TO1.HelloRV", "TO1.HelloRVAck",
+     "SigInfo", "serviceinfo.KV", "TO2.GetOVNextEntry", "DI.SetHmac"] := by decide +kernel
+
+/-- Non-vacuity: a rendezvous redirect (`protocol.To1d`: addresses with nil and non-nil pointers, a hash)
+conforms, marshals, and is read back. -/
+example :
+    let v : Val := .strct [.list [.strct [.nilp, .ref (.text [0x61]), .nat 8443, .nat 2]], .strct [.int (-16), .bytes [1, 2, 3]]]
+    Fdo.Gen.Schemas.s_To1d.inFragment = true ∧ conf 10000 maxDepth Fdo.Gen.Schemas.s_To1d v = true
+      ∧ (marshalS Fdo.Gen.Schemas.s_To1d v).isSome = true := by decide +kernel
 
 end Fdo.Props.C11
